@@ -256,6 +256,10 @@ pub fn c08(thorough: bool) -> Vec<Unit> {
         Op::Nack(S0, Oldest),
         Op::AdvPast,
         Op::Ack(S0, Oldest),
+        // nack batches whose length differs from the number of deliveries they return to the backlog (an unknown id, a repeated id):
+        // the returned delivery goes behind the never-delivered messages, which keep their order
+        Op::ModIds(S0, vec![IdKind::Unknown, IdKind::A], 0, false),
+        Op::ModIds(S0, vec![IdKind::A, IdKind::A], 0, false),
     ];
     let mut v = vec![];
     for n in if thorough { vec![4, 6, 7] } else { vec![4, 5] } {
